@@ -13,6 +13,7 @@ import (
 	"net"
 	"os"
 	"sync"
+	"syscall"
 	"time"
 )
 
@@ -74,9 +75,9 @@ type StreamCapture struct {
 	ClientAddr string
 	ServerAddr string
 	mu         sync.Mutex
-	C2S        []byte  // bytes written by the dialing side (after the filter)
-	S2C        []byte  // bytes written by the accepting side (after the filter)
-	C2SWrites  []int   // Write call sizes (before the filter)
+	C2S        []byte // bytes written by the dialing side (after the filter)
+	S2C        []byte // bytes written by the accepting side (after the filter)
+	C2SWrites  []int  // Write call sizes (before the filter)
 	S2CWrites  []int
 }
 
@@ -345,8 +346,8 @@ func (n *Net) DialPair(address string) (*Conn, *Conn, error) {
 
 // Datagram is one datagram handed to the network by an endpoint.
 type Datagram struct {
-	Index    int    // global index
-	DirIndex int    // index among datagrams with the same (From, To)
+	Index    int // global index
+	DirIndex int // index among datagrams with the same (From, To)
 	From, To string
 	Data     []byte
 	At       time.Duration // since network creation
@@ -472,6 +473,11 @@ func (p *PacketConn) WriteTo(b []byte, addr net.Addr) (int, error) {
 	ua, err := net.ResolveUDPAddr("udp", addr.String())
 	if err != nil {
 		return 0, err
+	}
+	if ua.Port == 0 {
+		// as the operating system: a datagram FROM source port 0 is delivered, sending TO port 0 is refused
+		// (Linux: sendto → EINVAL). Nothing in the simulated network listens on port 0.
+		return 0, &net.OpError{Op: "write", Net: "udp", Source: p.addr, Addr: ua, Err: syscall.EINVAL}
 	}
 	n := p.net
 	n.mu.Lock()
